@@ -263,7 +263,31 @@ def gen_data(rs, kind, n):
         return rs.normal(0, 1e-6, n)
     if kind == 'twoval':
         return rs.choice([1.0, 2.0], n)
+    # --- tiny RELATIVE spread: legitimate non-constant data that a tolerance-based constant test would misread
+    if kind == 'epoch':          # epoch-second timestamps within one hour
+        return 1.7e9 + rs.uniform(0, 3600, n)
+    if kind == 'offset1':        # offset 1, spread 1e-7
+        return 1.0 + rs.uniform(0, 1e-7, n)
+    if kind == 'nano':           # nanometre lengths in metres: tiny absolute values
+        return 3e-9 + rs.uniform(0, 2e-9, n)
+    if kind == 'bigoffset':      # offset 1e12, unit spread
+        return 1e12 + rs.normal(0, 1, n)
+    if kind == 'ulps':           # a few distinct values k ulps apart
+        x0 = float(rs.choice([1.0, 2.5, 1234.5678, 1e-3]))
+        k = int(rs.choice([1, 3, 1000]))
+        x1 = x0
+        for _ in range(k):
+            x1 = float(np.nextafter(x1, np.inf))
+        x2 = x1
+        for _ in range(k):
+            x2 = float(np.nextafter(x2, np.inf))
+        x = rs.choice([x0, x1, x2], n)
+        x[:3] = [x0, x1, x2]
+        return x
     raise ValueError(kind)
+
+
+REL_KINDS = ('epoch', 'offset1', 'nano', 'bigoffset', 'ulps')
 
 
 def uni_specs(ctx, n_random, deep=False):
@@ -287,6 +311,20 @@ def uni_specs(ctx, n_random, deep=False):
     add('StudentTUnivariate', {}, np.full(8, 7.0), 'const')     # t.fit returns loc = 7.000000000000002
     for name in ('GaussianUnivariate', 'UniformUnivariate', 'GaussianKDE'):
         add(name, {}, gen_data(rs, 'small', size()), 'small')      # spread 1e-6: not a constant
+    # tiny relative spread (non-constant!): every kind for the KDE and a wrapper that must select the KDE,
+    # one or two kinds for every other family's constant detection
+    nrel = (lambda: rng.randint(40, 80))
+    for kind in REL_KINDS:
+        add('GaussianKDE', {}, gen_data(rs, kind, nrel()), kind)
+    add('Univariate', {'candidates': ['GaussianKDE']}, gen_data(rs, 'epoch', nrel()), 'epoch')
+    add('Univariate', {'candidates': ['GaussianKDE', 'UniformUnivariate']}, gen_data(rs, rng.choice(REL_KINDS[:4]), nrel()),
+        'rel-wrapper')
+    add('Univariate', {'parametric': 'NON_PARAMETRIC'}, gen_data(rs, 'offset1', nrel()), 'offset1')
+    for name in C:
+        if name == 'GaussianKDE':
+            continue
+        for kind in (REL_KINDS if deep else rng.sample(REL_KINDS, 2)):
+            add(name, {}, gen_data(rs, kind, nrel()), kind)
     # KDE options
     x = gen_data(rs, 'normal', size())
     add('GaussianKDE', {'bw_method': 0.3}, x, 'normal')
@@ -743,6 +781,17 @@ def gauss_specs(ctx, n_cases, deep=False):
         else:
             data = df
         out.append(((labels_kind, how, tuple(picked), n), g, data, df))
+    # columns with a tiny RELATIVE spread modelled by a KDE (directly, and through a wrapper that selects it)
+    from scipy.stats import norm
+    for variant in ('kde', 'wrapper') if deep else (rng.choice(['kde', 'wrapper']),):
+        rs = np.random.RandomState(rng.getrandbits(32))
+        n = rng.randint(120, 200) if deep else rng.randint(40, 70)
+        z = rs.normal(size=(n, 3))
+        z[:, 1] += 0.7 * z[:, 0]
+        df = pd.DataFrame({'ts': 1.7e9 + 3600.0 * norm.cdf(z[:, 0]), 'len': 1.0 + 1e-7 * norm.cdf(z[:, 1] / 1.3), 'x': z[:, 2]})
+        kde = C['GaussianKDE'] if variant == 'kde' else Univariate(candidates=[C['GaussianKDE']])
+        g = GaussianMultivariate(distribution={'ts': kde, 'len': kde, 'x': C['GaussianUnivariate']})
+        out.append((('str', 'dict', ('rel-epoch:' + variant, 'rel-offset1:' + variant, 'GaussianUnivariate'), n), g, df, df))
     return out
 
 
